@@ -209,6 +209,88 @@ def rule_anchoring(ctx, ix):
         ctx.fail("C13.anchoring", "compile/_tensor_method.py:TensorMethod.__call__ returns the Tensor wrapping the output struct", "returned object does not own the kernel's output struct")
 
 
+def rule_borrowed_pointers(ctx, ix):
+    """Non-owning pointers obtained from self.cffi_tensor (ffi.cast of its fields) must not escape a
+    Tensor method's activation without `self`: a nested generator/closure that captures them may only
+    be driven from a frame that holds self (`yield from` in a generator method), and such a pointer is
+    never returned or stored."""
+    ctx.rule("C13.borrowed-pointers", "raw pointers into a tensor's storage never outlive a reference to the tensor", min_instances=3)
+    cls = "tensora.tensor.Tensor"
+    n_methods = 0
+    for q, f in ix.funcs.items():
+        if q.rsplit(".", 1)[0] != cls:
+            continue
+        node = f.node
+        # names bound to borrowed pointers
+        tainted = set()
+        for n in ast.walk(node):
+            if isinstance(n, ast.Assign) and isinstance(n.targets[0], ast.Name):
+                v = n.value
+                if isinstance(v, ast.Call) and u(v.func).endswith(".cast") and "self.cffi_tensor" in u(v):
+                    tainted.add(n.targets[0].id)
+        if not tainted:
+            continue
+        n_methods += 1
+        ctx.instance("C13.borrowed-pointers")
+        key = f"tensor.py:Tensor.{f.name}"
+        problems = []
+        is_generator = any(isinstance(x, (ast.Yield, ast.YieldFrom)) for x in _own_nodes(node))
+        nested = [x for x in ast.walk(node) if isinstance(x, (ast.FunctionDef, ast.Lambda)) and x is not node]
+        capturing = []
+        for g in nested:
+            names = {x.id for x in ast.walk(g) if isinstance(x, ast.Name) and isinstance(x.ctx, ast.Load)}
+            if names & tainted and "self" not in names:
+                capturing.append(g)
+        for g in capturing:
+            gname = getattr(g, "name", "<lambda>")
+            lazy = isinstance(g, ast.Lambda) or any(isinstance(x, (ast.Yield, ast.YieldFrom)) for x in ast.walk(g))
+            for r in _own_nodes(node):
+                if isinstance(r, ast.Return) and r.value is not None and any(isinstance(x, ast.Name) and x.id == gname for x in ast.walk(r.value)):
+                    if lazy and not is_generator:
+                        problems.append(
+                            f"returns the lazily evaluated `{gname}(...)`, which captures borrowed pointers {sorted(names_of(g) & tainted)} but not self: "
+                            "the tensor can be collected (and its arrays freed) while the iterator still reads them"
+                        )
+                if isinstance(r, ast.Assign) and any(isinstance(x, ast.Name) and x.id == gname for x in ast.walk(r.value)) and any(isinstance(t, ast.Attribute) for t in r.targets):
+                    problems.append(f"stores `{gname}` (capturing borrowed pointers) on an object")
+        for r in _own_nodes(node):
+            if isinstance(r, ast.Return) and r.value is not None:
+                v = r.value
+                base = v
+                sliced = False
+                while isinstance(base, ast.Subscript):
+                    if isinstance(base.slice, ast.Slice):
+                        sliced = True
+                    base = base.value
+                if isinstance(base, ast.Name) and base.id in tainted and not sliced and not isinstance(v, ast.Subscript):
+                    problems.append(f"returns the borrowed pointer {base.id}")
+        if problems:
+            ctx.fail("C13.borrowed-pointers", key, "; ".join(sorted(set(problems))))
+        else:
+            ctx.ok("C13.borrowed-pointers", key)
+    if n_methods < 3:
+        raise AnalysisError(f"only {n_methods} Tensor methods borrow pointers from self.cffi_tensor (expected items, taco_indices, taco_vals, __float__)")
+
+
+def names_of(g):
+    return {x.id for x in ast.walk(g) if isinstance(x, ast.Name)}
+
+
+def _own_nodes(fnode):
+    """Nodes of a function excluding nested function bodies."""
+    out = []
+
+    def rec(n):
+        for ch in ast.iter_child_nodes(n):
+            if isinstance(ch, (ast.FunctionDef, ast.AsyncFunctionDef, ast.Lambda)):
+                continue
+            out.append(ch)
+            rec(ch)
+
+    rec(fnode)
+    return out
+
+
 def rule_who_may_free(ctx, ix):
     ctx.rule("C13.who-may-free", "free / ffi.gc occur only in _cffi_ownership.py; ownership functions are called only on kernel outputs", min_instances=3)
     n_sites = 0
@@ -363,19 +445,33 @@ def rule_reentrancy(ctx, ix):
     f = ix.func(f"{TM}.__call__").node
     ctx.instance("C14.re-entrancy")
     bad = []
-    for n in ast.walk(f):
-        if isinstance(n, (ast.Assign, ast.AugAssign, ast.AnnAssign)):
-            tg = n.targets if isinstance(n, ast.Assign) else [n.target]
-            for t in tg:
-                for x in ast.walk(t):
-                    if isinstance(x, ast.Attribute) and isinstance(x.value, ast.Name) and x.value.id == "self":
-                        bad.append(u(t))
-        if isinstance(n, ast.Call) and isinstance(n.func, ast.Attribute) and n.func.attr in ("append", "add", "update", "setdefault", "pop", "clear", "extend") and u(n.func.value).startswith("self."):
-            bad.append(u(n.func))
-        if isinstance(n, ast.Call) and u(n.func) in ("setattr", "object.__setattr__") and n.args and u(n.args[0]) == "self":
-            bad.append(u(n))
+    # __call__ and every method it reaches through self.<method>(...) (transitively)
+    reach = [("__call__", f)]
+    seen_m = {"__call__"}
+    work = [f]
+    while work:
+        g = work.pop()
+        for n in ast.walk(g):
+            if isinstance(n, ast.Call) and isinstance(n.func, ast.Attribute) and isinstance(n.func.value, ast.Name) and n.func.value.id == "self":
+                q = f"{TM}.{n.func.attr}"
+                if q in ix.funcs and n.func.attr not in seen_m:
+                    seen_m.add(n.func.attr)
+                    reach.append((n.func.attr, ix.funcs[q].node))
+                    work.append(ix.funcs[q].node)
+    for mname, g in reach:
+        for n in ast.walk(g):
+            if isinstance(n, (ast.Assign, ast.AugAssign, ast.AnnAssign)):
+                tg = n.targets if isinstance(n, ast.Assign) else [n.target]
+                for t in tg:
+                    for x in ast.walk(t):
+                        if isinstance(x, ast.Attribute) and isinstance(x.value, ast.Name) and x.value.id == "self":
+                            bad.append(f"{mname}: {u(t)}")
+            if isinstance(n, ast.Call) and isinstance(n.func, ast.Attribute) and n.func.attr in ("append", "add", "update", "setdefault", "pop", "clear", "extend") and u(n.func.value).startswith("self."):
+                bad.append(f"{mname}: {u(n.func)}")
+            if isinstance(n, ast.Call) and u(n.func) in ("setattr", "object.__setattr__") and n.args and u(n.args[0]) == "self":
+                bad.append(f"{mname}: {u(n)}")
     if bad:
-        ctx.fail("C14.re-entrancy", "compile/_tensor_method.py:TensorMethod.__call__:self is read-only", f"__call__ mutates {bad}: concurrent calls of one cached TensorMethod interfere")
+        ctx.fail("C14.re-entrancy", "compile/_tensor_method.py:TensorMethod.__call__:self is read-only", f"__call__ (or a method it calls on self) mutates {bad}: concurrent calls of one cached TensorMethod interfere (e.g. a lazily created engine replaced while another thread runs its code)")
     else:
         ctx.ok("C14.re-entrancy", "compile/_tensor_method.py:TensorMethod.__call__:self is read-only")
     ctx.instance("C14.re-entrancy")
